@@ -587,17 +587,40 @@ impl<'a> Client<'a> {
             }
             Op::Fetch(ids) => {
                 let got = self.store.fetch_tracks(ids);
-                let r = Ret::Tracks(got.iter().map(|t| snap(t, &self.notif)).collect());
-                let ids = ids.clone();
-                self.step_model(kind, &r, &|_| false, &move |c, _| {
-                    let mut v = vec![];
-                    for id in &ids {
-                        if let Some(t) = c.tracks.remove(id) {
-                            v.push(t);
+                let actual: Vec<TrackSnap> = got.iter().map(|t| snap(t, &self.notif)).collect();
+                // fetch_tracks takes the ids one after another, each under its shard
+                // lock: workers may apply pending merges between two removals, so the
+                // model steps through the ids and lets merges land in between
+                let mut cur: Vec<(Cand, Vec<TrackSnap>)> = self.model.cands.iter().map(|c| (c.clone(), vec![])).collect();
+                for id in ids {
+                    let mut next: Vec<(Cand, Vec<TrackSnap>)> = vec![];
+                    for (c, acc) in &cur {
+                        for mut c2 in self.model.expand_one(c, &|_| false) {
+                            let mut a2 = acc.clone();
+                            if let Some(t) = c2.tracks.remove(id) {
+                                a2.push(t);
+                            }
+                            if !next.iter().any(|(x, y)| x == &c2 && y == &a2) {
+                                next.push((c2, a2));
+                            }
                         }
                     }
-                    Ret::Tracks(v)
-                });
+                    cur = next;
+                }
+                let keep: Vec<Cand> = cur.iter().filter(|(_, a)| a == &actual).map(|(c, _)| c.clone()).collect();
+                if keep.is_empty() {
+                    let msg = format!(
+                        "fetch_tracks({:?}) returned {:?}; the model allows {:?}",
+                        ids,
+                        actual,
+                        cur.iter().map(|(_, a)| a.clone()).collect::<Vec<_>>()
+                    );
+                    self.fail("ret", kind, "fetched-tracks-differ", msg, false);
+                    self.model.cands = cur.into_iter().map(|(c, _)| c).collect();
+                } else {
+                    self.model.cands = keep;
+                }
+                self.model.prune();
             }
             Op::MergeOwned { dest, src, classes, remove, hist, fail_nth } => {
                 self.barrier_if_unresolved();
